@@ -4,6 +4,7 @@
   interpreted answer; the read count is compared with the implementation by correspondence).
 -/
 import Snmp.Model.Ops
+import Snmp.Gen.Facts
 import Snmp.Props.C06
 namespace Snmp.Props.C07
 open Snmp Snmp.Ops
@@ -199,5 +200,10 @@ theorem C07_from_wire (e : Ber.Enc) (m : RespMsg) (cls : String) (hw : Glue.Writ
     exact C07_mismatch (.v2c community) rid m (by simp [mpmDecode, hver, hcom]) hes hne
   · intro heq
     simp [recv, mpmDecode, forcePdu, hver, hcom, hes, heq, bind, Except.bind, pure, Except.pure]
+
+
+/-- in `Client._send_once` the id check follows the decoding unconditionally and precedes the only
+    `return` (shape of the code, generated) — what `Ops.recv` is built on -/
+theorem C07_check_shape : Snmp.Gen.idCheckedBeforeReturn = true := by decide
 
 end Snmp.Props.C07
